@@ -9,7 +9,10 @@ PROPERTY_FILES = ["theories/Properties/C20.v"]
 RULE = ("small scope: directive alphabet = lines 1-3 x {plain, disable, enable} x rules {None, (A), (B), (), (A,B)} (45 forms), violation "
         "alphabet = codes {A,B,C} x lines 1-3; every list of <=2 directives x <=1 violations and <=1 directive x 2 violations exhaustively, "
         "plus seeded random 3-directive / 2-3-violation cases; comment-text parsing on generated directive texts; end-to-end files incl. "
-        "parse/template failures. non-trivial = some directive's line/rules interact with some violation; distinct = distinct case")
+        "parse/template failures; end-to-end files WITHOUT a parse tree (fatal jinja syntax error / unclosed bracket on line N>1, source-based "
+        "noqa scan) whose lines above contain blank lines, CRLF endings and non-newline line-break characters (FF, VT, FS/GS/RS, NEL, U+2028/9), "
+        "linted by path, by string and through the CLI. non-trivial = some directive's line/rules interact with some violation; "
+        "distinct = distinct case")
 ASSUMPTIONS = ["Python sorted() is stable", "violation identity abstracted to (code, line); directive identity to its index"]
 TRUSTED_BASE = ["hand model Model/NoQa.v of IgnoreMask.ignore_masked_violations / used flags; comment parsing (_parse_noqa) is not in the Coq "
                 "model: it is checked against a by-construction oracle only"]
@@ -184,6 +187,7 @@ def run(ctx, coq_ok):
                           {"input": {"comment": text}, "got": repr(got), "want": [action, want_rules]})
 
     e2e(ctx)
+    e2e_no_tree(ctx)
 
     if not coq_ok:
         return
@@ -272,3 +276,200 @@ def e2e(ctx):
                           {"input": {"file": text}, "all": allv, "reported": got, "expected": want, "directives": dirs})
         if lf_all.ignore_mask is not None:
             ctx.violation("noqa-off", "disable_noqa left an ignore mask in place", {"input": {"file": text}})
+
+
+# ---- end to end, files for which there is NO parse tree (fatal templating / parsing failure): the noqa comments are then found by a scan of
+# the raw source (IgnoreMask.from_source*), which has to number lines exactly as the templater / lexer number the violations: lines are
+# separated by "\n" only (CRLF files: "\r\n"); blank lines count; FF, VT, FS, GS, RS, NEL, LS, PS are ordinary characters inside a line.
+ODD = ["\x0c", "\x0b", "\x1c", "\x1d", "\x1e", "\x85", "\u2028", "\u2029"]
+
+# (text of a directive comment, action, rules) -- rules: "all" or a set of codes
+NT_DIRECTIVES = [
+    ("-- noqa", None, "all"), ("-- noqa: TMP", None, {"TMP"}), ("-- noqa: PRS", None, {"PRS"}), ("--noqa:TMP,PRS", None, {"TMP", "PRS"}),
+    ("-- noqa: LT01", None, {"LT01"}), ("-- noqa: PRS,CP01", None, {"PRS", "CP01"}), ("-- some text -- noqa: TMP , LXR", None, {"TMP", "LXR"}),
+    ("-- noqa: disable=TMP", "disable", {"TMP"}), ("-- noqa: disable=PRS", "disable", {"PRS"}), ("-- noqa: disable=all", "disable", "all"),
+    ("-- noqa: enable=TMP", "enable", {"TMP"}), ("-- noqa: enable=PRS", "enable", {"PRS"}), ("-- noqa: enable=all", "enable", "all"),
+    ("-- noqa: disable=TMP,PRS", "disable", {"TMP", "PRS"}), ("-- noqa: disable=LT01", "disable", {"LT01"}),
+]
+# the failing line: (templater, text before the comment, violation code)
+NT_FATAL = [
+    ("jinja", "FROM {{ 1 + }}", "TMP"), ("jinja", "{% if %}", "TMP"), ("jinja", "WHERE {% endif %} 1 = 1", "TMP"), ("jinja", "{{ a b }}", "TMP"),
+    ("jinja", "FROM t {% for %}", "TMP"), ("raw", "SELECT (a from b", "PRS"), ("raw", "SELECT a FROM t WHERE x IN (1, 2", "PRS"),
+    ("raw", "SELECT [a FROM b", "PRS"),
+]
+
+
+def nt_body(rng, templater):
+    """One ordinary line (no line feed in it), possibly with odd characters, for above/below the failing line."""
+    o = lambda: rng.choice(ODD)
+    k = rng.randrange(9)
+    if k == 0:
+        return ""  # blank line
+    if k == 1:
+        return rng.choice([" ", "\t", o(), "  " + o()])  # visually blank, not empty
+    if k == 2:
+        return "-- legacy report %s page %d" % (o(), rng.randrange(9))
+    if k == 3:
+        return "SELECT 'a%sb' AS c%s;" % (o(), o() if rng.random() < 0.3 else "")
+    if k == 4:
+        return "SELECT a,%s b FROM t;" % rng.choice(["\x0c", "\x0b", "\u2028"])
+    if k == 5:
+        return "/* %s%s */" % (o(), o())
+    if k == 6 and templater == "jinja":
+        return "{# %s #}SELECT {{ 1 }};" % o()
+    return rng.choice(["SELECT 1;", "SELECT a FROM b;", "select A  from b;"])
+
+
+def nt_predict(dirs, allv):
+    """dirs: [(line, action, rules)], allv: [(code, line, pos)] -> (visible violations, set of lines of directives that hid something).
+    Written from the property text; at most one directive per line here, so a line number identifies a directive."""
+    cov = lambda r, code: r == "all" or code in r
+    want, used = [], set()
+    for (code, ln, lp) in allv:
+        plain = [l for (l, a, r) in dirs if a is None and l == ln and cov(r, code)]
+        if plain:
+            used.add(plain[0])
+            continue
+        rel = sorted((l, a) for (l, a, r) in dirs if a is not None and cov(r, code) and l <= ln)
+        if rel and rel[-1][1] == "disable":
+            used.add(rel[-1][0])
+            continue
+        want.append((code, ln, lp))
+    return want, used
+
+
+def e2e_no_tree(ctx):
+    import json
+    import os
+    import shutil
+    import tempfile
+    from sqlfluff.core import FluffConfig, Linter
+    n = 70 if ctx.tier == "quick" else 900
+    ncli = 4 if ctx.tier == "quick" else 40
+    tmp = tempfile.mkdtemp(prefix="c20_", dir=os.environ.get("TMPDIR") or "/var/tmp")
+    linters = {}
+
+    def linter(templater, noqa_off):
+        if (templater, noqa_off) not in linters:
+            ov = {"dialect": "ansi", "templater": templater, "rules": "LT01,CP01"}
+            if noqa_off:
+                ov["disable_noqa"] = True
+            linters[templater, noqa_off] = Linter(config=FluffConfig(overrides=ov))
+        return linters[templater, noqa_off]
+
+    try:
+        for k in range(n):
+            rng = ctx.rng
+            templater, fatal, vcode = rng.choice(NT_FATAL)
+            eol = rng.choice(["\n", "\n", "\r\n"])
+            lines, dirs = [], []
+            nabove = rng.choice([1, 1, 2, 3, 4, 6])
+            for _ in range(nabove):
+                body = nt_body(rng, templater)
+                if rng.random() < 0.3:
+                    d = rng.choice(NT_DIRECTIVES)
+                    # a comment-only line or a trailing comment
+                    body = d[0] if (body.startswith(("--", "/*")) or rng.random() < 0.3) else (body + " " + d[0])
+                    dirs.append((len(lines) + 1, d[1], d[2]))
+                lines.append(body)
+            if rng.random() < 0.75:
+                d = rng.choice(NT_DIRECTIVES[:7] if rng.random() < 0.8 else NT_DIRECTIVES)
+                dirs.append((len(lines) + 1, d[1], d[2]))
+                lines.append(fatal + " " + d[0] + rng.choice(["", " ", rng.choice(ODD)]))
+            else:
+                lines.append(fatal)
+            fatal_line = len(lines)
+            for _ in range(rng.choice([0, 0, 1, 2])):
+                body = nt_body(rng, templater)
+                if rng.random() < 0.5:
+                    d = rng.choice(NT_DIRECTIVES)
+                    body = d[0] if body.startswith(("--", "/*")) else (body + " " + d[0])
+                    dirs.append((len(lines) + 1, d[1], d[2]))
+                lines.append(body)
+            assert all("\n" not in l and "\r" not in l for l in lines)
+            text = eol.join(lines) + rng.choice([eol, ""])
+            feats = sorted({"blank" if any(l == "" for l in lines[:fatal_line - 1]) else "",
+                            "odd" if any(c in l for l in lines[:fatal_line - 1] for c in ODD) else "",
+                            "crlf" if eol == "\r\n" else ""} - {""})
+            for entry in ("path", "string") + (("cli",) if k < ncli else ()):
+                inp = {"file": text, "templater": templater, "entry": entry, "rules": "LT01,CP01", "dialect": "ansi"}
+                if entry == "cli":
+                    got_cli = nt_cli(tmp, text, templater)
+                    if got_cli is None:
+                        ctx.broken_obligation("harness: CLI lint of a no-tree file gave no JSON", inp)
+                        continue
+                    allv, got, unused, tree = got_cli
+                else:
+                    if entry == "path":
+                        path = os.path.join(tmp, "f%d.sql" % k)
+                        with open(path, "wb") as f:
+                            f.write(text.encode("utf-8"))
+                        lf_all = linter(templater, True).lint_path(path).files[0]
+                        lf = linter(templater, False).lint_path(path).files[0]
+                        os.remove(path)
+                    else:
+                        lf_all = linter(templater, True).lint_string(text)
+                        lf = linter(templater, False).lint_string(text)
+                    tree = lf.tree is not None
+                    allv = sorted((v.rule_code(), v.line_no, v.line_pos) for v in lf_all.get_violations())
+                    got = sorted((v.rule_code(), v.line_no, v.line_pos) for v in lf.get_violations())
+                    unused = sorted(v.line_no for v in lf.get_violations(filter_warning=False, warn_unused_ignores=True)
+                                    if v.rule_code() == "NOQA")
+                    if lf_all.ignore_mask is not None:
+                        ctx.violation("noqa-off", "disable_noqa left an ignore mask in place", {"input": inp})
+                want, used = nt_predict(dirs, allv)
+                on_line = any(l == fatal_line for (l, a, r) in dirs)
+                ctx.case(("e2e-nt", entry, text), bucket="e2e-no-tree-" + entry,
+                         sample={"file": text, "entry": entry, "all": allv, "reported": got} if k == 1 and entry == "path" else None)
+                for f_ in feats:
+                    ctx.count("e2e-no-tree-feature-" + f_)
+                if tree or not any(c == vcode and l == fatal_line for (c, l, p) in allv):
+                    # the generator's intent (fatal failure reported on the line it was written on, no tree) did not materialise
+                    ctx.count("e2e-no-tree-unintended")
+                    if tree:
+                        continue
+                attrs = {"no_tree": True, "directive_on_failing_line": on_line}
+                if got != want:
+                    ctx.violation("noqa-e2e-source", "file without a parse tree: reported violations differ from (all violations minus those "
+                                  "the noqa comments on the violations' own source lines / the range directives above hide)",
+                                  {"input": inp, "all": allv, "reported": got, "expected": want, "directives(line,action,rules)": dirs,
+                                   "features": feats}, attrs=attrs)
+                    continue
+                # unused-noqa warnings exactly for the (plain / disable) directives that hid nothing
+                want_unused = sorted(l for (l, a, r) in dirs if a != "enable" and l not in used)
+                enable_lines = {l for (l, a, r) in dirs if a == "enable"}
+                got_unused = [l for l in unused if l not in enable_lines]
+                if got_unused != want_unused:
+                    ctx.violation("noqa-e2e-source-unused", "file without a parse tree: unused-noqa warnings are not exactly those for the "
+                                  "directives that hid nothing", {"input": inp, "all": allv, "unused_warning_lines": unused,
+                                                                  "expected_lines": want_unused, "directives(line,action,rules)": dirs,
+                                                                  "features": feats}, attrs=attrs)
+    finally:
+        shutil.rmtree(tmp, ignore_errors=True)
+
+
+def nt_cli(tmp, text, templater):
+    """`sqlfluff lint --warn-unused-ignores` (and once more with --disable-noqa) on a real file; the human format is read because the
+    JSON/YAML formats never carry unused-noqa warnings."""
+    import os
+    import re
+    from click.testing import CliRunner
+    from sqlfluff.cli.commands import lint
+    path = os.path.join(tmp, "cli.sql")
+    with open(path, "wb") as f:
+        f.write(text.encode("utf-8"))
+    out = []
+    try:
+        for extra in (["--disable-noqa"], ["--warn-unused-ignores"]):
+            r = CliRunner().invoke(lint, [path, "--dialect", "ansi", "--templater", templater, "--rules", "LT01,CP01", "--nocolor",
+                                          "--ignore-local-config"] + extra)
+            if r.exception is not None and not isinstance(r.exception, SystemExit):
+                return None
+            out.append([(m.group(3), int(m.group(1)), int(m.group(2)))
+                        for m in re.finditer(r"^L:\s*(\d+) \| P:\s*(\d+) \|\s*(\w+) \|", r.output, re.M)])
+    finally:
+        os.remove(path)
+    allv = sorted(out[0])
+    got = sorted(v for v in out[1] if v[0] != "NOQA")
+    unused = sorted(v[1] for v in out[1] if v[0] == "NOQA")
+    return allv, got, unused, False
